@@ -1144,7 +1144,7 @@ package weshnet
 //@   requires ixOK(m)
 //@   modifies mapof(m.contacts), mapof(m.contactsFromGroupPK)
 //@   ensures [C07.index.sent.first-event-decides] typeis(event, "*berty.tech/weshnet/v2/pkg/protocoltypes.AccountContactRequestOutgoingSent") && old(has(m.contacts, bytes(as(event, "*berty.tech/weshnet/v2/pkg/protocoltypes.AccountContactRequestOutgoingSent").ContactPk))) ==>
-//@        m.contacts[bytes(as(event, "*berty.tech/weshnet/v2/pkg/protocoltypes.AccountContactRequestOutgoingSent").ContactPk)] == old(m.contacts[bytes(as(event, "*berty.tech/weshnet/v2/pkg/protocoltypes.AccountContactRequestOutgoingSent").ContactPk)]) && m.contacts[bytes(as(event, "*berty.tech/weshnet/v2/pkg/protocoltypes.AccountContactRequestOutgoingSent").ContactPk)].state == old(m.contacts[bytes(as(event, "*berty.tech/weshnet/v2/pkg/protocoltypes.AccountContactRequestOutgoingSent").ContactPk)].state)
+//@        has(m.contacts, bytes(as(event, "*berty.tech/weshnet/v2/pkg/protocoltypes.AccountContactRequestOutgoingSent").ContactPk)) && m.contacts[bytes(as(event, "*berty.tech/weshnet/v2/pkg/protocoltypes.AccountContactRequestOutgoingSent").ContactPk)] == old(m.contacts[bytes(as(event, "*berty.tech/weshnet/v2/pkg/protocoltypes.AccountContactRequestOutgoingSent").ContactPk)]) && m.contacts[bytes(as(event, "*berty.tech/weshnet/v2/pkg/protocoltypes.AccountContactRequestOutgoingSent").ContactPk)].state == old(m.contacts[bytes(as(event, "*berty.tech/weshnet/v2/pkg/protocoltypes.AccountContactRequestOutgoingSent").ContactPk)].state)
 //@   ensures [C07.index.sent.new] typeis(event, "*berty.tech/weshnet/v2/pkg/protocoltypes.AccountContactRequestOutgoingSent") && !old(has(m.contacts, bytes(as(event, "*berty.tech/weshnet/v2/pkg/protocoltypes.AccountContactRequestOutgoingSent").ContactPk))) ==>
 //@        has(m.contacts, bytes(as(event, "*berty.tech/weshnet/v2/pkg/protocoltypes.AccountContactRequestOutgoingSent").ContactPk)) && m.contacts[bytes(as(event, "*berty.tech/weshnet/v2/pkg/protocoltypes.AccountContactRequestOutgoingSent").ContactPk)] != nil && fresh(m.contacts[bytes(as(event, "*berty.tech/weshnet/v2/pkg/protocoltypes.AccountContactRequestOutgoingSent").ContactPk)]) && m.contacts[bytes(as(event, "*berty.tech/weshnet/v2/pkg/protocoltypes.AccountContactRequestOutgoingSent").ContactPk)].state == 3
 //@   ensures [C07.index.sent.others] forall k Bytes {has(m.contacts, k)} :: !(typeis(event, "*berty.tech/weshnet/v2/pkg/protocoltypes.AccountContactRequestOutgoingSent") && k == bytes(as(event, "*berty.tech/weshnet/v2/pkg/protocoltypes.AccountContactRequestOutgoingSent").ContactPk)) ==> has(m.contacts, k) == old(has(m.contacts, k)) && m.contacts[k] == old(m.contacts[k])
@@ -1155,7 +1155,7 @@ package weshnet
 //@   requires ixOK(m)
 //@   modifies mapof(m.contacts), mapof(m.contactsFromGroupPK)
 //@   ensures [C07.index.discarded.first-event-decides] typeis(event, "*berty.tech/weshnet/v2/pkg/protocoltypes.AccountContactRequestIncomingDiscarded") && old(has(m.contacts, bytes(as(event, "*berty.tech/weshnet/v2/pkg/protocoltypes.AccountContactRequestIncomingDiscarded").ContactPk))) ==>
-//@        m.contacts[bytes(as(event, "*berty.tech/weshnet/v2/pkg/protocoltypes.AccountContactRequestIncomingDiscarded").ContactPk)] == old(m.contacts[bytes(as(event, "*berty.tech/weshnet/v2/pkg/protocoltypes.AccountContactRequestIncomingDiscarded").ContactPk)]) && m.contacts[bytes(as(event, "*berty.tech/weshnet/v2/pkg/protocoltypes.AccountContactRequestIncomingDiscarded").ContactPk)].state == old(m.contacts[bytes(as(event, "*berty.tech/weshnet/v2/pkg/protocoltypes.AccountContactRequestIncomingDiscarded").ContactPk)].state)
+//@        has(m.contacts, bytes(as(event, "*berty.tech/weshnet/v2/pkg/protocoltypes.AccountContactRequestIncomingDiscarded").ContactPk)) && m.contacts[bytes(as(event, "*berty.tech/weshnet/v2/pkg/protocoltypes.AccountContactRequestIncomingDiscarded").ContactPk)] == old(m.contacts[bytes(as(event, "*berty.tech/weshnet/v2/pkg/protocoltypes.AccountContactRequestIncomingDiscarded").ContactPk)]) && m.contacts[bytes(as(event, "*berty.tech/weshnet/v2/pkg/protocoltypes.AccountContactRequestIncomingDiscarded").ContactPk)].state == old(m.contacts[bytes(as(event, "*berty.tech/weshnet/v2/pkg/protocoltypes.AccountContactRequestIncomingDiscarded").ContactPk)].state)
 //@   ensures [C07.index.discarded.new] typeis(event, "*berty.tech/weshnet/v2/pkg/protocoltypes.AccountContactRequestIncomingDiscarded") && !old(has(m.contacts, bytes(as(event, "*berty.tech/weshnet/v2/pkg/protocoltypes.AccountContactRequestIncomingDiscarded").ContactPk))) ==>
 //@        has(m.contacts, bytes(as(event, "*berty.tech/weshnet/v2/pkg/protocoltypes.AccountContactRequestIncomingDiscarded").ContactPk)) && m.contacts[bytes(as(event, "*berty.tech/weshnet/v2/pkg/protocoltypes.AccountContactRequestIncomingDiscarded").ContactPk)] != nil && fresh(m.contacts[bytes(as(event, "*berty.tech/weshnet/v2/pkg/protocoltypes.AccountContactRequestIncomingDiscarded").ContactPk)]) && m.contacts[bytes(as(event, "*berty.tech/weshnet/v2/pkg/protocoltypes.AccountContactRequestIncomingDiscarded").ContactPk)].state == 5
 //@   ensures [C07.index.discarded.others] forall k Bytes {has(m.contacts, k)} :: !(typeis(event, "*berty.tech/weshnet/v2/pkg/protocoltypes.AccountContactRequestIncomingDiscarded") && k == bytes(as(event, "*berty.tech/weshnet/v2/pkg/protocoltypes.AccountContactRequestIncomingDiscarded").ContactPk)) ==> has(m.contacts, k) == old(has(m.contacts, k)) && m.contacts[k] == old(m.contacts[k])
@@ -1166,7 +1166,7 @@ package weshnet
 //@   requires ixOK(m)
 //@   modifies mapof(m.contacts), mapof(m.contactsFromGroupPK)
 //@   ensures [C07.index.accepted.first-event-decides] typeis(event, "*berty.tech/weshnet/v2/pkg/protocoltypes.AccountContactRequestIncomingAccepted") && old(has(m.contacts, bytes(as(event, "*berty.tech/weshnet/v2/pkg/protocoltypes.AccountContactRequestIncomingAccepted").ContactPk))) ==>
-//@        m.contacts[bytes(as(event, "*berty.tech/weshnet/v2/pkg/protocoltypes.AccountContactRequestIncomingAccepted").ContactPk)] == old(m.contacts[bytes(as(event, "*berty.tech/weshnet/v2/pkg/protocoltypes.AccountContactRequestIncomingAccepted").ContactPk)]) && m.contacts[bytes(as(event, "*berty.tech/weshnet/v2/pkg/protocoltypes.AccountContactRequestIncomingAccepted").ContactPk)].state == old(m.contacts[bytes(as(event, "*berty.tech/weshnet/v2/pkg/protocoltypes.AccountContactRequestIncomingAccepted").ContactPk)].state)
+//@        has(m.contacts, bytes(as(event, "*berty.tech/weshnet/v2/pkg/protocoltypes.AccountContactRequestIncomingAccepted").ContactPk)) && m.contacts[bytes(as(event, "*berty.tech/weshnet/v2/pkg/protocoltypes.AccountContactRequestIncomingAccepted").ContactPk)] == old(m.contacts[bytes(as(event, "*berty.tech/weshnet/v2/pkg/protocoltypes.AccountContactRequestIncomingAccepted").ContactPk)]) && m.contacts[bytes(as(event, "*berty.tech/weshnet/v2/pkg/protocoltypes.AccountContactRequestIncomingAccepted").ContactPk)].state == old(m.contacts[bytes(as(event, "*berty.tech/weshnet/v2/pkg/protocoltypes.AccountContactRequestIncomingAccepted").ContactPk)].state)
 //@   ensures [C07.index.accepted.new] typeis(event, "*berty.tech/weshnet/v2/pkg/protocoltypes.AccountContactRequestIncomingAccepted") && !old(has(m.contacts, bytes(as(event, "*berty.tech/weshnet/v2/pkg/protocoltypes.AccountContactRequestIncomingAccepted").ContactPk))) ==>
 //@        has(m.contacts, bytes(as(event, "*berty.tech/weshnet/v2/pkg/protocoltypes.AccountContactRequestIncomingAccepted").ContactPk)) && m.contacts[bytes(as(event, "*berty.tech/weshnet/v2/pkg/protocoltypes.AccountContactRequestIncomingAccepted").ContactPk)] != nil && fresh(m.contacts[bytes(as(event, "*berty.tech/weshnet/v2/pkg/protocoltypes.AccountContactRequestIncomingAccepted").ContactPk)]) && m.contacts[bytes(as(event, "*berty.tech/weshnet/v2/pkg/protocoltypes.AccountContactRequestIncomingAccepted").ContactPk)].state == 3
 //@   ensures [C07.index.accepted.others] forall k Bytes {has(m.contacts, k)} :: !(typeis(event, "*berty.tech/weshnet/v2/pkg/protocoltypes.AccountContactRequestIncomingAccepted") && k == bytes(as(event, "*berty.tech/weshnet/v2/pkg/protocoltypes.AccountContactRequestIncomingAccepted").ContactPk)) ==> has(m.contacts, k) == old(has(m.contacts, k)) && m.contacts[k] == old(m.contacts[k])
@@ -1177,7 +1177,7 @@ package weshnet
 //@   requires ixOK(m)
 //@   modifies mapof(m.contacts), mapof(m.contactsFromGroupPK)
 //@   ensures [C07.index.blocked.first-event-decides] typeis(event, "*berty.tech/weshnet/v2/pkg/protocoltypes.AccountContactBlocked") && old(has(m.contacts, bytes(as(event, "*berty.tech/weshnet/v2/pkg/protocoltypes.AccountContactBlocked").ContactPk))) ==>
-//@        m.contacts[bytes(as(event, "*berty.tech/weshnet/v2/pkg/protocoltypes.AccountContactBlocked").ContactPk)] == old(m.contacts[bytes(as(event, "*berty.tech/weshnet/v2/pkg/protocoltypes.AccountContactBlocked").ContactPk)]) && m.contacts[bytes(as(event, "*berty.tech/weshnet/v2/pkg/protocoltypes.AccountContactBlocked").ContactPk)].state == old(m.contacts[bytes(as(event, "*berty.tech/weshnet/v2/pkg/protocoltypes.AccountContactBlocked").ContactPk)].state)
+//@        has(m.contacts, bytes(as(event, "*berty.tech/weshnet/v2/pkg/protocoltypes.AccountContactBlocked").ContactPk)) && m.contacts[bytes(as(event, "*berty.tech/weshnet/v2/pkg/protocoltypes.AccountContactBlocked").ContactPk)] == old(m.contacts[bytes(as(event, "*berty.tech/weshnet/v2/pkg/protocoltypes.AccountContactBlocked").ContactPk)]) && m.contacts[bytes(as(event, "*berty.tech/weshnet/v2/pkg/protocoltypes.AccountContactBlocked").ContactPk)].state == old(m.contacts[bytes(as(event, "*berty.tech/weshnet/v2/pkg/protocoltypes.AccountContactBlocked").ContactPk)].state)
 //@   ensures [C07.index.blocked.new] typeis(event, "*berty.tech/weshnet/v2/pkg/protocoltypes.AccountContactBlocked") && !old(has(m.contacts, bytes(as(event, "*berty.tech/weshnet/v2/pkg/protocoltypes.AccountContactBlocked").ContactPk))) ==>
 //@        has(m.contacts, bytes(as(event, "*berty.tech/weshnet/v2/pkg/protocoltypes.AccountContactBlocked").ContactPk)) && m.contacts[bytes(as(event, "*berty.tech/weshnet/v2/pkg/protocoltypes.AccountContactBlocked").ContactPk)] != nil && fresh(m.contacts[bytes(as(event, "*berty.tech/weshnet/v2/pkg/protocoltypes.AccountContactBlocked").ContactPk)]) && m.contacts[bytes(as(event, "*berty.tech/weshnet/v2/pkg/protocoltypes.AccountContactBlocked").ContactPk)].state == 6
 //@   ensures [C07.index.blocked.others] forall k Bytes {has(m.contacts, k)} :: !(typeis(event, "*berty.tech/weshnet/v2/pkg/protocoltypes.AccountContactBlocked") && k == bytes(as(event, "*berty.tech/weshnet/v2/pkg/protocoltypes.AccountContactBlocked").ContactPk)) ==> has(m.contacts, k) == old(has(m.contacts, k)) && m.contacts[k] == old(m.contacts[k])
@@ -1188,7 +1188,7 @@ package weshnet
 //@   requires ixOK(m)
 //@   modifies mapof(m.contacts), mapof(m.contactsFromGroupPK)
 //@   ensures [C07.index.unblocked.first-event-decides] typeis(event, "*berty.tech/weshnet/v2/pkg/protocoltypes.AccountContactUnblocked") && old(has(m.contacts, bytes(as(event, "*berty.tech/weshnet/v2/pkg/protocoltypes.AccountContactUnblocked").ContactPk))) ==>
-//@        m.contacts[bytes(as(event, "*berty.tech/weshnet/v2/pkg/protocoltypes.AccountContactUnblocked").ContactPk)] == old(m.contacts[bytes(as(event, "*berty.tech/weshnet/v2/pkg/protocoltypes.AccountContactUnblocked").ContactPk)]) && m.contacts[bytes(as(event, "*berty.tech/weshnet/v2/pkg/protocoltypes.AccountContactUnblocked").ContactPk)].state == old(m.contacts[bytes(as(event, "*berty.tech/weshnet/v2/pkg/protocoltypes.AccountContactUnblocked").ContactPk)].state)
+//@        has(m.contacts, bytes(as(event, "*berty.tech/weshnet/v2/pkg/protocoltypes.AccountContactUnblocked").ContactPk)) && m.contacts[bytes(as(event, "*berty.tech/weshnet/v2/pkg/protocoltypes.AccountContactUnblocked").ContactPk)] == old(m.contacts[bytes(as(event, "*berty.tech/weshnet/v2/pkg/protocoltypes.AccountContactUnblocked").ContactPk)]) && m.contacts[bytes(as(event, "*berty.tech/weshnet/v2/pkg/protocoltypes.AccountContactUnblocked").ContactPk)].state == old(m.contacts[bytes(as(event, "*berty.tech/weshnet/v2/pkg/protocoltypes.AccountContactUnblocked").ContactPk)].state)
 //@   ensures [C07.index.unblocked.new] typeis(event, "*berty.tech/weshnet/v2/pkg/protocoltypes.AccountContactUnblocked") && !old(has(m.contacts, bytes(as(event, "*berty.tech/weshnet/v2/pkg/protocoltypes.AccountContactUnblocked").ContactPk))) ==>
 //@        has(m.contacts, bytes(as(event, "*berty.tech/weshnet/v2/pkg/protocoltypes.AccountContactUnblocked").ContactPk)) && m.contacts[bytes(as(event, "*berty.tech/weshnet/v2/pkg/protocoltypes.AccountContactUnblocked").ContactPk)] != nil && fresh(m.contacts[bytes(as(event, "*berty.tech/weshnet/v2/pkg/protocoltypes.AccountContactUnblocked").ContactPk)]) && m.contacts[bytes(as(event, "*berty.tech/weshnet/v2/pkg/protocoltypes.AccountContactUnblocked").ContactPk)].state == 4
 //@   ensures [C07.index.unblocked.others] forall k Bytes {has(m.contacts, k)} :: !(typeis(event, "*berty.tech/weshnet/v2/pkg/protocoltypes.AccountContactUnblocked") && k == bytes(as(event, "*berty.tech/weshnet/v2/pkg/protocoltypes.AccountContactUnblocked").ContactPk)) ==> has(m.contacts, k) == old(has(m.contacts, k)) && m.contacts[k] == old(m.contacts[k])
@@ -1199,7 +1199,7 @@ package weshnet
 //@   requires ixOK(m)
 //@   modifies mapof(m.contacts), mapof(m.contactsFromGroupPK), mapof(m.contactRequestMetadata), m.contacts[bytes(as(event, "*berty.tech/weshnet/v2/pkg/protocoltypes.AccountContactRequestIncomingReceived").ContactPk)].contact.Metadata, m.contacts[bytes(as(event, "*berty.tech/weshnet/v2/pkg/protocoltypes.AccountContactRequestIncomingReceived").ContactPk)].contact.PublicRendezvousSeed
 //@   ensures [C07.index.received.first-event-decides] typeis(event, "*berty.tech/weshnet/v2/pkg/protocoltypes.AccountContactRequestIncomingReceived") && old(has(m.contacts, bytes(as(event, "*berty.tech/weshnet/v2/pkg/protocoltypes.AccountContactRequestIncomingReceived").ContactPk))) ==>
-//@        m.contacts[bytes(as(event, "*berty.tech/weshnet/v2/pkg/protocoltypes.AccountContactRequestIncomingReceived").ContactPk)] == old(m.contacts[bytes(as(event, "*berty.tech/weshnet/v2/pkg/protocoltypes.AccountContactRequestIncomingReceived").ContactPk)]) && m.contacts[bytes(as(event, "*berty.tech/weshnet/v2/pkg/protocoltypes.AccountContactRequestIncomingReceived").ContactPk)].state == old(m.contacts[bytes(as(event, "*berty.tech/weshnet/v2/pkg/protocoltypes.AccountContactRequestIncomingReceived").ContactPk)].state)
+//@        has(m.contacts, bytes(as(event, "*berty.tech/weshnet/v2/pkg/protocoltypes.AccountContactRequestIncomingReceived").ContactPk)) && m.contacts[bytes(as(event, "*berty.tech/weshnet/v2/pkg/protocoltypes.AccountContactRequestIncomingReceived").ContactPk)] == old(m.contacts[bytes(as(event, "*berty.tech/weshnet/v2/pkg/protocoltypes.AccountContactRequestIncomingReceived").ContactPk)]) && m.contacts[bytes(as(event, "*berty.tech/weshnet/v2/pkg/protocoltypes.AccountContactRequestIncomingReceived").ContactPk)].state == old(m.contacts[bytes(as(event, "*berty.tech/weshnet/v2/pkg/protocoltypes.AccountContactRequestIncomingReceived").ContactPk)].state)
 //@   ensures [C07.index.received.new] typeis(event, "*berty.tech/weshnet/v2/pkg/protocoltypes.AccountContactRequestIncomingReceived") && !old(has(m.contacts, bytes(as(event, "*berty.tech/weshnet/v2/pkg/protocoltypes.AccountContactRequestIncomingReceived").ContactPk))) ==>
 //@        has(m.contacts, bytes(as(event, "*berty.tech/weshnet/v2/pkg/protocoltypes.AccountContactRequestIncomingReceived").ContactPk)) && m.contacts[bytes(as(event, "*berty.tech/weshnet/v2/pkg/protocoltypes.AccountContactRequestIncomingReceived").ContactPk)] != nil && fresh(m.contacts[bytes(as(event, "*berty.tech/weshnet/v2/pkg/protocoltypes.AccountContactRequestIncomingReceived").ContactPk)]) && m.contacts[bytes(as(event, "*berty.tech/weshnet/v2/pkg/protocoltypes.AccountContactRequestIncomingReceived").ContactPk)].state == 2
 //@   ensures [C07.index.received.others] forall k Bytes {has(m.contacts, k)} :: !(typeis(event, "*berty.tech/weshnet/v2/pkg/protocoltypes.AccountContactRequestIncomingReceived") && k == bytes(as(event, "*berty.tech/weshnet/v2/pkg/protocoltypes.AccountContactRequestIncomingReceived").ContactPk)) ==> has(m.contacts, k) == old(has(m.contacts, k)) && m.contacts[k] == old(m.contacts[k])
@@ -1210,7 +1210,7 @@ package weshnet
 //@   requires ixOK(m)
 //@   modifies mapof(m.contacts), mapof(m.contactsFromGroupPK), mapof(m.contactRequestMetadata), m.contacts[bytes(as(event, "*berty.tech/weshnet/v2/pkg/protocoltypes.AccountContactRequestOutgoingEnqueued").Contact.Pk)].contact.Metadata, m.contacts[bytes(as(event, "*berty.tech/weshnet/v2/pkg/protocoltypes.AccountContactRequestOutgoingEnqueued").Contact.Pk)].contact.PublicRendezvousSeed
 //@   ensures [C07.index.enqueued.first-event-decides] typeis(event, "*berty.tech/weshnet/v2/pkg/protocoltypes.AccountContactRequestOutgoingEnqueued") && as(event, "*berty.tech/weshnet/v2/pkg/protocoltypes.AccountContactRequestOutgoingEnqueued").Contact != nil && old(has(m.contacts, bytes(as(event, "*berty.tech/weshnet/v2/pkg/protocoltypes.AccountContactRequestOutgoingEnqueued").Contact.Pk))) ==>
-//@        m.contacts[bytes(as(event, "*berty.tech/weshnet/v2/pkg/protocoltypes.AccountContactRequestOutgoingEnqueued").Contact.Pk)] == old(m.contacts[bytes(as(event, "*berty.tech/weshnet/v2/pkg/protocoltypes.AccountContactRequestOutgoingEnqueued").Contact.Pk)]) && m.contacts[bytes(as(event, "*berty.tech/weshnet/v2/pkg/protocoltypes.AccountContactRequestOutgoingEnqueued").Contact.Pk)].state == old(m.contacts[bytes(as(event, "*berty.tech/weshnet/v2/pkg/protocoltypes.AccountContactRequestOutgoingEnqueued").Contact.Pk)].state)
+//@        has(m.contacts, bytes(as(event, "*berty.tech/weshnet/v2/pkg/protocoltypes.AccountContactRequestOutgoingEnqueued").Contact.Pk)) && m.contacts[bytes(as(event, "*berty.tech/weshnet/v2/pkg/protocoltypes.AccountContactRequestOutgoingEnqueued").Contact.Pk)] == old(m.contacts[bytes(as(event, "*berty.tech/weshnet/v2/pkg/protocoltypes.AccountContactRequestOutgoingEnqueued").Contact.Pk)]) && m.contacts[bytes(as(event, "*berty.tech/weshnet/v2/pkg/protocoltypes.AccountContactRequestOutgoingEnqueued").Contact.Pk)].state == old(m.contacts[bytes(as(event, "*berty.tech/weshnet/v2/pkg/protocoltypes.AccountContactRequestOutgoingEnqueued").Contact.Pk)].state)
 //@   ensures [C07.index.enqueued.new] typeis(event, "*berty.tech/weshnet/v2/pkg/protocoltypes.AccountContactRequestOutgoingEnqueued") && as(event, "*berty.tech/weshnet/v2/pkg/protocoltypes.AccountContactRequestOutgoingEnqueued").Contact != nil && !old(has(m.contacts, bytes(as(event, "*berty.tech/weshnet/v2/pkg/protocoltypes.AccountContactRequestOutgoingEnqueued").Contact.Pk))) ==>
 //@        has(m.contacts, bytes(as(event, "*berty.tech/weshnet/v2/pkg/protocoltypes.AccountContactRequestOutgoingEnqueued").Contact.Pk)) && m.contacts[bytes(as(event, "*berty.tech/weshnet/v2/pkg/protocoltypes.AccountContactRequestOutgoingEnqueued").Contact.Pk)] != nil && fresh(m.contacts[bytes(as(event, "*berty.tech/weshnet/v2/pkg/protocoltypes.AccountContactRequestOutgoingEnqueued").Contact.Pk)]) && m.contacts[bytes(as(event, "*berty.tech/weshnet/v2/pkg/protocoltypes.AccountContactRequestOutgoingEnqueued").Contact.Pk)].state == 1
 //@   ensures [C07.index.enqueued.others] forall k Bytes {has(m.contacts, k)} :: !(typeis(event, "*berty.tech/weshnet/v2/pkg/protocoltypes.AccountContactRequestOutgoingEnqueued") && as(event, "*berty.tech/weshnet/v2/pkg/protocoltypes.AccountContactRequestOutgoingEnqueued").Contact != nil && k == bytes(as(event, "*berty.tech/weshnet/v2/pkg/protocoltypes.AccountContactRequestOutgoingEnqueued").Contact.Pk)) ==> has(m.contacts, k) == old(has(m.contacts, k)) && m.contacts[k] == old(m.contacts[k])
